@@ -67,6 +67,10 @@ def run(R, ctx):
             ordn = per.setdefault((root, n), 0)
             per[(root, n)] = ordn + 1
             key = f"{root}|{n}|discard#{ordn}"
+            t_ = b.blocks[bb]['term']
+            if re.search(r'^std::sync::mpsc::Sender::<T>::send$', n) and 'MessageToCleanupThread' in ' '.join(t_['callee'].get('targs') or []):
+                R.ok('R19.1', key, "allowed discard: request / Die to the cleanup thread - if the thread is gone there is nothing to tell (by message type)", nontrivial=True)
+                continue
             allowed = next((why for (fr, cr, why) in ALLOWED_DISCARDS if re.search(cr, n) and
                             (re.search(fr, root) or any(re.search(fr, o) for o in owners.get(b.path, ())) or
                              # a private helper called from nowhere but the allow-listed function(s) is part of them
